@@ -162,6 +162,8 @@ CURATED = [
                                                 "poi": "mu", "zeros": ["c1.sig.n0"]}),
     ("mixed-constraint-widths", {"channels": [("c1", 2, [("sig", [("normfactor", "mu"), ("normsys", "n1")]), ("bkg", [("shapesys", "ss"), ("histosys", "a_h")])]),
                                                ("c2", 3, [("bkg", [("staterror", "st"), ("histosys", "z_h")])])], "poi": "mu"}),
+    ("constraint-names-against-channel-order", {"channels": [("c1", 3, [("bkg", [("shapesys", "z_ss"), ("staterror", "z_st")])]),
+                                                              ("c2", 2, [("bkg", [("shapesys", "a_ss"), ("staterror", "a_st")]), ("sig", [("normfactor", "mu")])])], "poi": "mu"}),
     ("listing-order-unsorted", {"channels": [("zz", 1, [("y", [("normsys", "b"), ("normfactor", "mu"), ("histosys", "a")]), ("x", [("staterror", "st"), ("normsys", "a")])]),
                                               ("aa", 2, [("x", [("staterror", "st2"), ("histosys", "a")])])], "poi": "mu"}),
 ]
